@@ -187,10 +187,10 @@ def run(tier, seed):
     work = engine.workdir("C09")
     try:
         if tier == "quick":
-            consts = {"MaxCmds": 2, "NVar": 1, "Stepwise": "TRUE", "NRepl": 12}
+            consts = {"MaxCmds": 2, "NVar": 1, "Stepwise": "TRUE", "NRepl": 12, "MinCmds": 1}
             props = ["PROPERTY Frozen", "PROPERTY AppendOnly"]
         else:
-            consts = {"MaxCmds": 3, "NVar": 1, "Stepwise": "FALSE", "NRepl": 6}
+            consts = {"MaxCmds": 3, "NVar": 1, "Stepwise": "FALSE", "NRepl": 6, "MinCmds": 1}
             props = []
         res = engine.run_tlc(work, "MC_C09", constants=consts, init="InitT", deadlock=True,
                              invariants=["AgreesOnConforming", "NumericSegs", "NoFaultOk"], cfg_extra=props)
@@ -203,6 +203,21 @@ def run(tier, seed):
             if n % 4000 == 17:
                 run.sample({"data": r["string"], "edit": case["edit"], "expected_status": case["status"], "retained_segs": case["segs"]})
             n += 1
+        # beyond the exhaustive bound: behaviours of 4..6 commands, every single-token fault of each prefix visited
+        sres, vals = engine.simulate_cases(work, "MC_C09", {"MaxCmds": 6, "NVar": 2, "Stepwise": "FALSE", "NRepl": 12, "MinCmds": 4},
+                                           num=(1 if tier == "quick" else 12), depth=9, seed=seed + 1, init="InitT")
+        run.add_tlc(sres, "PathTok on faulted tapes of 4-6 commands by TLC -simulate (%d behaviours)" % sres["behaviours"])
+        seen = set()
+        sim = []
+        for v in vals:
+            key = engine.py_to_tla(v[1])
+            if key not in seen:
+                seen.add(key)
+                sim.append({"tape": v[1], "status": v[2], "segs": v[3], "edit": v[4], "salt": seed})
+        for case, r in engine.replay("harness.c09", sim, chunk=500):
+            run.record(case, r, key=r["string"])
+            byclass["sim:" + r["class"]] = byclass.get("sim:" + r["class"], 0) + 1
+        run.extra["simulated_tapes_replayed"] = len(sim)
         run.extra["cases_by_status_and_edit"] = byclass
         # promptness on very long inputs (time must stay proportional; generous bound)
         import time
